@@ -270,3 +270,75 @@ def h_exec_cancel_during_launch(sw1, cancel_first):
     tgt = s['handover_stageout'][0][1] if s['handover_stageout'] else None
     check(not alive and tgt == rps.CANCELED, 'cancel request during launch '
           'was not enacted: process alive=%s, outcome %s', bool(alive), tgt)
+
+
+# ------------------------------------------------------------------------------
+# requests which wait in the agent scheduler's raptor backlog (their master has
+# not registered its queue yet): cancel stops the named ones and only them
+#
+import harness.c20 as c20                                           # noqa: E402
+import harness.sched as HS                                          # noqa: E402
+import radical.pilot.agent.scheduler.base as m_sbase                # noqa: E402
+
+
+@obligation(params={'n': (1, 4), 'mask': (0, 15), 'star': (0, 15),
+                    'unknown': 'bool'},
+            partition={'quick': ('mask', 16), 'thorough': ('mask', 16)},
+            timeout={'quick': 300, 'thorough': 600},
+            funcs=['radical/pilot/agent/scheduler/base.py:'
+                   'AgentSchedulingComponent.control_cb',
+                   'radical/pilot/agent/scheduler/base.py:'
+                   'AgentSchedulingComponent._schedule_incoming'],
+            bounds='1..4 function requests wait in the raptor backlog (each for '
+                   'master m0 or for any master, by bit mask); one cancel '
+                   'request names any subset of them (optionally also an '
+                   'unknown uid); then m0 registers its queue',
+            stubs=['ru.zmq.Putter -> recorder', 'advance -> recorder'])
+def h_raptor_backlog_cancel(n, mask, star, unknown):
+    """named backlog requests are CANCELED once and never relayed; the others
+    are relayed once and not canceled"""
+    n, mask, star = conc(n, 1, 4), conc(mask, 0, 15), conc(star, 0, 15)
+    if mask >> n or star >> n: return
+    nodes = HS.mk_nodes([[rpc.FREE] * 4], [[]], 0, 0)
+    s = HS.mk_sched(nodes, 4, 0)
+    puts = []
+    old = m_sbase.ru
+    class RU(object):
+        def __getattr__(self, k): return getattr(old, k)
+        class zmq(object):
+            @staticmethod
+            def Putter(queue, addr): return c20.RQ(queue, puts)
+    m_sbase.ru = RU()
+    try:
+        bulk = []
+        for i in range(n):
+            rid = '*' if (star >> i) & 1 else 'm0'
+            bulk.append(HS.mk_task('t%d' % i, raptor_id=rid,
+                                   mode='task.function'))
+        s._queue_sched.put((bulk, s._SCHEDULE))
+        real(s._schedule_incoming)
+        named = ['t%d' % i for i in range(n) if (mask >> i) & 1]
+        uids  = (['nobody'] if unknown else []) + named
+        real(s.control_cb, 'control', {'cmd': 'cancel_tasks',
+                                       'arg': {'uids': uids}})
+        # the scheduler process sees the request as well
+        real(s._schedule_incoming)
+        real(s.control_cb, 'control', {'cmd': 'register_raptor_queue',
+             'arg': {'name': 'm0', 'queue': 'm0', 'addr': 'a'}})
+    finally:
+        m_sbase.ru = old
+    reach()
+    trace('named', named, 'puts', puts, 'advanced', s.advanced)
+    for i in range(n):
+        uid = 't%d' % i
+        canc = [a for a in s.advanced if a[0] == uid and a[1] == rps.CANCELED]
+        rel  = [q for q, u in puts if u == uid]
+        if uid in named:
+            check(len(canc) == 1, 'named request %s reported CANCELED %s '
+                  'times', uid, len(canc))
+            check(not rel, 'named request %s relayed to raptor %s after the '
+                  'cancel', uid, rel)
+        else:
+            check(not canc, 'bystander request %s was canceled', uid)
+            check(len(rel) == 1, 'bystander request %s relayed %s times', uid,
+                  len(rel))
